@@ -5,12 +5,24 @@ CHECK = {'pkgs': ['core/validatorapi', 'core/parsigex'],
  'run': {'core/validatorapi': 'TestVerifC10vapi', 'core/parsigex': 'TestVerifC10peer'},
  'level': 'exploration',
  'engine': 'enumx',
- 'technique': 'exhaustive enumeration of single alterations of valid submissions against the real components: the real validatorapi.NewComponent '
+ 'technique': 'exhaustive enumeration, against the real components, of (0) single alterations of valid submissions, (1) operation sequences '
+              'on one long-lived instance, (2) beacon-node fault scripts and (3) boundary values of the peer-controlled integers. '
+              '(0): the real validatorapi.NewComponent '
               '(verification on, share 2 of a 4-share x 2-validator cluster with real threshold BLS keys, beaconmock) is driven through every '
               'submit-style endpoint, the real parsigex.NewParSigEx + NewEth2Verifier + core.NewDutyGater (clock pinned) through its handle '
               'method; a reflection walker alters every leaf field of the submitted Go object / decoded peer value one at a time, a fixed list '
               'adds the targeted alterations; the oracle recomputes signing root, domain and epoch independently and re-verifies everything '
-              'that reaches a subscriber',
+              'that reaches a subscriber. (1): ONE Component / ONE ParSigEx (own NewEth2Verifier closure, own gater) receives every '
+              'ordered pair (thorough: also every triple over a reduced alphabet) of prebuilt submissions from an explicit alphabet and, after '
+              'every valid submission A, the replays that share bytes with A; every call is judged by the single-call oracle, and the verdict '
+              '(error or not, exact deliveries) after a prefix must equal the verdict of the same bytes on a fresh instance. (2): the beacon '
+              'client of the Component / of the verifier is a wrapper around the beaconmock that numbers the invocations of Spec, Domain, '
+              'GenesisDomain, ActiveValidators (and Genesis, ForkSchedule, SlotsPerEpoch, SlotDuration, Validators, CompleteValidators) and '
+              'fails the scripted ones; the invocations of a call are discovered by a counting run, then every single fault point x {error, '
+              'context.DeadlineExceeded, Spec answering without keys} (thorough: also every pair of fault points x {error, deadline}^2) is '
+              'run on a new instance. (3): the duty slot and the share index of otherwise valid, correctly signed peer messages run over '
+              'explicit boundary sets, against the func returned by core.NewDutyGater directly and through the real handle path; the window is '
+              'recomputed with math/big',
  'claim': 'VC path: SubmitAttestations and SubmitAggregateAttestations (phase0..fulu), SubmitProposal (quick capella+fulu, thorough phase0..fulu; '
           'phase0/altair are answered "unsupported version" by the eth2 client library, so only their rejections are judged), SubmitProposal with '
           'a blinded proposal and SubmitBlindedProposal (quick fulu/capella+fulu, thorough bellatrix..fulu), Proposal (randao reveal), '
@@ -29,17 +41,49 @@ CHECK = {'pkgs': ['core/validatorapi', 'core/parsigex'],
           'rotation 0/1). Oracle: what does not verify for its own signing root, domain and epoch under the lock\'s public share of the '
           'identified validator and share index (or lies outside the gater window / has an invalid duty type) must return an error with no '
           'subscriber call; the unaltered submission must be delivered unchanged to every subscriber; every delivered partial signature is '
-          're-verified; alterations that leave the signed content and identification untouched may be accepted',
+          're-verified; alterations that leave the signed content and identification untouched may be accepted. '
+          'SEQUENCES - alphabet per endpoint / duty type: both valid submissions and the targeted invalid ones of the single-call list (quick: '
+          'the core families other share, other share valid for itself, other validator same share, filed under the other validator, one other '
+          'domain, previous fork, other message, zero signature, outsider / first slot beyond the window; one version per endpoint or duty type '
+          'plus pre-electra attestations, unversioned aggregates, full and blinded proposals: 12 VC units x 9-11 and 14 peer units x 9-11 '
+          'operations; thorough: VC every targeted submission of those units plus the core families of all other versions, peer one '
+          'representative of every targeted family (21) for all 29 units). Every ordered pair of the alphabet. Replays after a valid A: to every '
+          'endpoint / duty type Y the object of Y for the same validator carrying A\'s signature and, where Y\'s type allows, A\'s message root '
+          '(sync committee message: block root := root(A); randao reveal for epoch n and beacon committee selection for slot n when root(A) is '
+          'the root of the integer n - on the VC path the duty definitions then also know a proposer duty in slot 16n); peer path also A\'s raw '
+          'bytes under every other duty type, A\'s entry filed under the other validator and under share index 2, 3, 4; VC path A\'s object and '
+          'signature identifying the other validator where the root does not bind it (attestation, sync message, both selections, randao); '
+          'sync committee message at a slot of the previous fork, of the next fork and at another slot of the same fork (valid: must be '
+          'admitted); A itself again (must be admitted again). Thorough triples: all ordered triples over {valid, other share, zero '
+          'signature} x 6 units, and (a, b, replay of the latest valid of a, b). FAULTS - per unit (quick: as for sequences; thorough: all '
+          'versions) x alphabet (VC quick core families, thorough all targeted; peer quick one representative per family incl. two-entry and '
+          'mixed sets, thorough all targeted) x every fault script; under a fault whatever fails the independent verification must still be '
+          'rejected with an error and no subscriber call, a valid submission may be delivered (re-verified) or refused. BOUNDARIES - duty '
+          'slot: for k in 0..63 2^k-1, 2^k, 2^k+1, 2^k+currentSlot; floor(MaxInt64/12e9) and floor(MaxUint64/12e9) -1,+0,+1,+currentSlot; '
+          '2^63-2..2^63+2; 2^64-1-d for d in 0..33; currentSlot+-1 and the window edge +-1 (278 values) x duty type -1..15 against the '
+          'gater func, and x {prepare_aggregator, sync_message, prepare_sync_contribution with own slot = duty slot and signed for the fork '
+          'of that slot, attester} through handle: outside epoch(slot) <= currentEpoch+2 (math/big) => error, no delivery. Share index: 0, '
+          'int32 min/max, +-(2^k-1), +-2^k, +-(2^k+1), 2^k+1, 2^k+4 for k in 0..31 on the valid entry of every sequence unit',
  'trusted': 'herumi/tbls Sign/Verify, go-eth2-client hash tree roots, core\'s wire codec (ParSignedDataSetTo/FromProto) and the beaconmock fork '
             'schedule/genesis are the judge\'s inputs; signing root/domain/epoch per object type, domain-type constants, fork selection, '
             'validator identification and the gater window are re-implemented in the harness and do not use core/eth2signeddata.go, '
             'eth2util/signing, core/gater.go. The gater window is future-only (epoch <= now+2) as documented in gater.go: a correctly signed set '
             'for a long past slot is accepted by design and not alarmed (expiry is the deadliner\'s job). A handler panic on a malformed request '
-            'counts as rejection. Whether the valid entry of a mixed set is delivered is not judged',
- 'rule': 'one evaluation = one request/message built from scratch and handed to the real handler; distinct = (path, endpoint or duty type, '
-         'version, alteration kind, field path)',
+            'counts as rejection. Whether the valid entry of a mixed set is delivered is not judged. Sequence operations are built once per process '
+            'and re-submitted as deep copies (the oracle is a relation on the bytes); dutydb/scheduler answers (agreed proposal, duty '
+            'definitions) are environment set per operation. The fault wrapper sits at the eth2wrap.Client interface: failures inside the '
+            'HTTP client below it (fork schedule, genesis fetches of Domain) appear as a failing Domain call. The pinned clock is after '
+            'genesis; the gater before genesis is not enumerated',
+ 'rule': 'one evaluation = one request/message built from scratch and handed to the real handler, or one operation sequence (2 or 3 calls) '
+         'on one new long-lived instance, or one call under one fault script on a new instance, or one boundary value; distinct = (path, '
+         'endpoint or duty type, version, alteration kind, field path | operation descriptors of the sequence | fault script | value)',
  'budget_s': {'quick': 100, 'thorough': 1500}}
 CHECK["assumptions"] = ENUMX_ASSUME + [
     "lists that are empty in the generated objects (slashings, deposits, exits, ...) contribute no leaves; one object per type and version",
     "cluster 4 shares x 2 validators, threshold 3, node share index 2, sending peer share index 1; base epoch 2050 of the beaconmock fork schedule",
+    "history: sequences of length 2 (thorough: 3 over a reduced alphabet) on an instance that is new per sequence; longer histories and state shared through "
+    "anything but the component instance, its verifier/gater closures and package-level variables of the process are not explored",
+    "faults: at most one (thorough: two) failing beacon-node invocations per call, failure = error / deadline / Spec without keys; a beacon node that "
+    "answers with wrong data is outside the fault model",
+    "boundary slots use a 12 s slot and the clock pinned to slot 8 of epoch 2050 (after genesis)",
 ]
